@@ -409,7 +409,7 @@ fn replay(ctx: &Ctx, _engine: &str, case: &Value) -> CaseResult {
 pub static C15: PropDef = PropDef {
     id: "C15",
     level: "exploration",
-    rule: "proptest generates a scratch tree and a PATH of 0..12 entries, each one of {missing directory, directory without the command, regular file without x bits, sub-directory of that name, executable text file without #!, hard link of the helper (runnable), empty string, duplicate of an earlier entry, entry longer than PATH_MAX, a plain file as entry, relative entry}, PATH values made only of empty entries, command names of 1..255 bytes, the same through `executable`, and names with a slash (./x, sub/x, absolute; existing or not; with and without a child cwd; decoys of the same relative name under the PATH directories). Oracle: independent lookup model over the generated tree: the first non-empty entry with a runnable candidate is the program that runs (it reports /proc/self/exe; directory identity by dev/ino); if none is runnable the call fails with one of the errnos the skipped candidates produce (ENOENT when there is no candidate) and no helper report appears; a name with a slash runs exactly that path relative to the child's cwd. Non-trivial = at least one skipped candidate before the winner, or no winner, or a name with a slash. A quarter of the cases use directory names that are not valid UTF-8; an entry may be an empty sub-directory of the next entry's directory (PATH=A/Bin:A).",
+    rule: "proptest generates a scratch tree and a PATH of 0..12 entries, each one of {missing directory, directory without the command, regular file without x bits, sub-directory of that name, executable text file without #!, hard link of the helper (runnable), empty string, duplicate of an earlier entry, entry longer than PATH_MAX, a plain file as entry, relative entry}, PATH values made only of empty entries, command names of 1..255 bytes, the same through `executable`, and names with a slash (./x, sub/x, absolute; existing or not; with and without a child cwd; decoys of the same relative name under the PATH directories). Oracle: independent lookup model over the generated tree: the first non-empty entry with a runnable candidate is the program that runs (it reports /proc/self/exe; directory identity by dev/ino); if none is runnable the call fails with one of the errnos the skipped candidates produce (ENOENT when there is no candidate) and no helper report appears; a name with a slash runs exactly that path relative to the child's cwd. Non-trivial = at least one skipped candidate before the winner, or no winner, or a name with a slash. A quarter of the cases use directory names that are not valid UTF-8; an entry may be an empty sub-directory of the next entry's directory (PATH=A/Bin:A). For every name without a slash a runnable decoy of that name sits in the child's working directory: empty PATH entries are skipped, not taken for the current directory.",
     assumptions: &["the harness sets its own PATH and cwd for the duration of a case (single-threaded worker)", "runs as root: `not executable` is a file without any x bit"],
     engines: "real",
     workers: |_| 16,
